@@ -6,11 +6,12 @@ import Driver.VersionOps
 import Driver.SuitOps
 import Driver.SignOps
 import Driver.ExtractOps
+import Driver.EncryptOps
 /-! JSON-lines driver: one request object per line on stdin, one response per line on stdout.
 `{"op": name, ...}` → `{"ok": ...}` | `{"err": class}` | `{"bad": message}` (malformed request). -/
 open Lean Driver
 
-def handlers : List (String → Json → Option (M Json)) := [CacheOps.handle, IHexOps.handle, ImageOps.handle, VersionOps.handle, SuitOps.handle, SignOps.handle, ExtractOps.handle]
+def handlers : List (String → Json → Option (M Json)) := [CacheOps.handle, IHexOps.handle, ImageOps.handle, VersionOps.handle, SuitOps.handle, SignOps.handle, ExtractOps.handle, EncryptOps.handle]
 
 def dispatch (j : Json) : Json :=
   match strField j "op" with
